@@ -118,6 +118,20 @@ func (c *vfcfbCore) reset() {
 	c.failReadSeq, c.failReadErr, c.failedRead = 0, nil, nil
 }
 
+// armReadFault makes the n-th read of the fault views fail once with err (under the core's lock: the code under test may have
+// left goroutines behind that still use the bucket).
+func (c *vfcfbCore) armReadFault(n int, err error) {
+	c.mu.Lock()
+	c.failReadSeq, c.failReadErr = n, err
+	c.mu.Unlock()
+}
+
+func (c *vfcfbCore) failedReadOp() *vfcfbOp {
+	c.mu.Lock()
+	defer c.mu.Unlock()
+	return c.failedRead
+}
+
 func (c *vfcfbCore) counts() (ops, muts, reads int) {
 	c.mu.Lock()
 	defer c.mu.Unlock()
